@@ -4,7 +4,7 @@ kept, min orientation, non-member removal is a no-op).  Partial: deque / priorit
 over all operation sequences follows from the schema by the textbook induction, not mechanised."""
 from engine import Engine, NONE, some, fmt_loc, fmt_val, OPTION
 from rl import (loc_endswith, path_cond, trace_summary, where, const_of, fields_of)
-from common import contains
+from common import contains, same_pred
 from lib import CheckerError
 
 LIST = 'intrusive_double_linked_list::LinkedList'
@@ -229,7 +229,7 @@ def run(C, R):
         fn = one('intrusive_pairing_heap::safe_lesser')
         for path in E.run(fn['path']):
             if path.exit == 'return':
-                report('C20.R3', fn, path, path.ret == ('bin', 'Lt', ('ref', (('P', 'a'),)), ('ref', (('P', 'b'),))),
+                report('C20.R3', fn, path, same_pred(path.ret, ('bin', 'Lt', ('ref', (('P', 'a'),)), ('ref', (('P', 'b'),)))),
                        'safe_lesser(a, b) == a < b')
         fn = one('intrusive_pairing_heap::meld')
         nm = 0
